@@ -11,6 +11,7 @@
 import EasyNet.Drv.Framing
 import EasyNet.Drv.ExcFlow
 import EasyNet.Drv.Endpoint
+import EasyNet.Drv.Datagram
 import EasyNet.Drv.Senders
 import EasyNet.Drv.TlsSend
 import EasyNet.Drv.StreamServer
@@ -27,6 +28,7 @@ def runners : List (String → List String → List String → Option (List Stri
   [ runFraming
   , runExcFlow
   , runEndpoint
+  , runDatagram
   , runSenders
   , runTls
   , runStreamServer
